@@ -331,8 +331,7 @@ class IeeeJob:
             except Unsupported as e:
                 rec['search_error'] = 'Unsupported: %s' % e
         rec['confirmed'] = confirmed
-        d = os.path.join(os.path.dirname(check.work), '..', 'replays')
-        d = os.path.normpath(d)
+        d = check.replay_dir
         os.makedirs(d, exist_ok=True)
         path = os.path.join(d, re.sub(r'[^\w.()#,-]+', '_', ob.name) + '.replay.json')
         json.dump(rec, open(path, 'w'), indent=1, default=str)
@@ -469,7 +468,7 @@ class HarnessJob:
 
 def write_replay(check, ob, rec):
     import json
-    d = os.path.join(os.path.dirname(os.path.dirname(check.work)), 'replays')
+    d = check.replay_dir
     os.makedirs(d, exist_ok=True)
     path = os.path.join(d, re.sub(r'[^\w.()#,-]+', '_', ob.name)[:200] + '.replay.json')
     json.dump(rec, open(path, 'w'), indent=1, default=str)
